@@ -285,7 +285,7 @@ theorem gStep_obs_ne_foreign (kg : Keying) (perf : Bool) (t : ThreadId) (op : Op
     alone, whatever the shared objects hold. -/
 
 /-- forget the saved scoped values -/
-def forgetTL (l : TL) : TL := { l with svSaved := [] }
+def forgetTL (l : TL) : TL := { l with svSaved := [], nfHeld := false }
 def forgetL (L : Local) : Local := { L with tl := forgetTL L.tl }
 
 /-- an operation on a shared object - other than a cached call under COLLECT_PERF_STATS - changes nothing of the
@@ -298,6 +298,9 @@ theorem sharedStep_forget (perf : Bool) (sh : Shared) (l : TL) (op : Op) (r : TL
   case svEnter v => cases h; rfl
   case svExit =>
     cases hs : l.svSaved <;> simp only [hs] at h <;> cases h <;> simp [forgetTL]
+  case nfRepr => cases h; rfl
+  case nfEnter => split at h <;> cases h <;> rfl
+  case nfExit => split at h <;> cases h <;> rfl
   case lruCall k =>
     have hp : perf = false := by simpa [isLru] using hc
     subst hp
